@@ -1,7 +1,7 @@
 (* Executable models (definitions only) of
      - the ID iterators  /repo/iterators/IteratorDictID{,Contiguous,Duplicates,NoContiguous}.h
      - the block routing of /repo/StringDictionaryHASHRPDACBlocks.cpp
-       (constructor partition loop, binary_search_before_index, locate, extract)
+       (constructor blocks_partition loop, binary_search_before_index, locate, extract)
        and the delegating string iterator /repo/iterators/IteratorDictStringHRPDACBlocks.h
    Every array / vector read goes through Base.nthN (None = out of bounds); size_t
    arithmetic is written modulo 2^64.  Proofs are in IterProofs.v. *)
@@ -9,24 +9,24 @@ From LibCSD Require Import Base Spec.
 Local Open Scope N_scope.
 
 (* ---- size_t arithmetic ------------------------------------------------------- *)
-Definition two64 : N := 18446744073709551616.
-Definition w64 (x : N) : N := x mod two64.
+Definition sz64 : N := 18446744073709551616.
+Definition wrap64 (x : N) : N := x mod sz64.
 (* a - b on size_t (operands already < 2^64) *)
-Definition sub64 (a b : N) : N := (a + two64 - b) mod two64.
+Definition sub_sz (a b : N) : N := (a + sz64 - b) mod sz64.
 
 (* ---- iterators as state machines -------------------------------------------- *)
 (* [it_next] returns None when the C++ would read outside the array it was given. *)
-Record iter (St A : Type) : Type := mk_iter {
+Record itmachine (St A : Type) : Type := mk_itmachine {
   it_has_next : St -> bool;
   it_next : St -> option (A * St)
 }.
-Arguments mk_iter {St A}.
+Arguments mk_itmachine {St A}.
 Arguments it_has_next {St A}.
 Arguments it_next {St A}.
 
 (* the canonical client loop  while (it->hasNext() && k < fuel) out.push_back(it->next());
    returns the elements and the final state (whose has_next tells whether more remain) *)
-Fixpoint drain {St A} (it : iter St A) (fuel : nat) (st : St) : option (list A * St) :=
+Fixpoint drain_iter {St A} (it : itmachine St A) (fuel : nat) (st : St) : option (list A * St) :=
   match fuel with
   | O => Some ([], st)
   | S f =>
@@ -34,7 +34,7 @@ Fixpoint drain {St A} (it : iter St A) (fuel : nat) (st : St) : option (list A *
         match it_next it st with
         | None => None
         | Some (x, st1) =>
-            match drain it f st1 with
+            match drain_iter it f st1 with
             | None => None
             | Some (l, st2) => Some (x :: l, st2)
             end
@@ -50,14 +50,14 @@ Record cstate : Type := mk_cstate {
 
 (* IteratorDictIDContiguous(left, right): scanneable = right; processed = left - 1 (size_t) *)
 Definition contig_init (l r : N) : cstate :=
-  mk_cstate l r (sub64 l 1) r.
+  mk_cstate l r (sub_sz l 1) r.
 (* hasNext: processed < scanneable *)
 Definition contig_has_next (st : cstate) : bool := c_processed st <? c_scanneable st.
 (* next: return ++processed *)
 Definition contig_next (st : cstate) : option (N * cstate) :=
-  let p := w64 (c_processed st + 1) in
+  let p := wrap64 (c_processed st + 1) in
   Some (p, mk_cstate (c_left st) (c_right st) p (c_scanneable st)).
-Definition contig_iter : iter cstate N := mk_iter contig_has_next contig_next.
+Definition contig_iter : itmachine cstate N := mk_itmachine contig_has_next contig_next.
 
 (* ---- array iterators: NoContiguous and Duplicates ----------------------------- *)
 (* a_log is a ghost field: the indices of [ids] read so far, newest first *)
@@ -72,9 +72,9 @@ Definition nocontig_next (st : astate) : option (N * astate) :=
   let p := a_processed st in
   match nthN (a_ids st) p with
   | None => None
-  | Some x => Some (x, mk_astate (a_ids st) (w64 (p + 1)) (a_scanneable st) (p :: a_log st))
+  | Some x => Some (x, mk_astate (a_ids st) (wrap64 (p + 1)) (a_scanneable st) (p :: a_log st))
   end.
-Definition nocontig_iter : iter astate N := mk_iter arr_has_next nocontig_next.
+Definition nocontig_iter : itmachine astate N := mk_itmachine arr_has_next nocontig_next.
 
 (* do { processed++; } while (ids[processed - 1] == ids[processed]);
    fuel: one more than the array length suffices (processed grows by one per round and
@@ -83,8 +83,8 @@ Fixpoint dup_skip (fuel : nat) (ids : list N) (p : N) (log : list N) : option (N
   match fuel with
   | O => None
   | S f =>
-      let p1 := w64 (p + 1) in
-      let i0 := sub64 p1 1 in
+      let p1 := wrap64 (p + 1) in
+      let i0 := sub_sz p1 1 in
       match nthN ids i0, nthN ids p1 with
       | Some a, Some b =>
           if a =? b then dup_skip f ids p1 (p1 :: i0 :: log) else Some (p1, p1 :: i0 :: log)
@@ -103,31 +103,31 @@ Definition dup_next (st : astate) : option (N * astate) :=
       | Some (p', log') => Some (nx, mk_astate (a_ids st) p' (a_scanneable st) log')
       end
   end.
-Definition dup_iter : iter astate N := mk_iter arr_has_next dup_next.
+Definition dup_iter : itmachine astate N := mk_itmachine arr_has_next dup_next.
 
 (* what StringDictionaryFMINDEX::locateSubstr hands over: occs[0..k) sorted, occs[k] = 0 *)
 Definition dup_array (ids : list N) : list N := ids ++ [0].
 
 (* adjacent-duplicate removal: the denotation of the Duplicates iterator *)
-Fixpoint dedup (l : list N) : list N :=
+Fixpoint dedup_adj (l : list N) : list N :=
   match l with
   | [] => []
   | x :: r => match r with
               | [] => [x]
-              | y :: _ => if x =? y then dedup r else x :: dedup r
+              | y :: _ => if x =? y then dedup_adj r else x :: dedup_adj r
               end
   end.
 
-Fixpoint seqN (start : N) (count : nat) : list N :=
-  match count with O => [] | S c => start :: seqN (start + 1) c end.
+Fixpoint seq_from (start : N) (count : nat) : list N :=
+  match count with O => [] | S c => start :: seq_from (start + 1) c end.
 
 (* greatest index read (harness output) *)
 Definition max_read (log : list N) : option N :=
   match log with [] => None | x :: r => Some (fold_left N.max r x) end.
 
-(* drain helpers used by the oracle: elements + whether has_next is still true *)
-Definition run_iter {St A} (it : iter St A) (fuel : nat) (st : St) : option (list A * bool * St) :=
-  match drain it fuel st with
+(* drain_iter helpers used by the oracle: elements + whether has_next is still true *)
+Definition run_iter {St A} (it : itmachine St A) (fuel : nat) (st : St) : option (list A * bool * St) :=
+  match drain_iter it fuel st with
   | None => None
   | Some (l, st') => Some (l, it_has_next it st', st')
   end.
@@ -150,7 +150,7 @@ Section Bsbi.
 
   Definition bsbi (v : list A) (target : A) : option N :=
     let pos := lower_bound v target in
-    if pos =? lenN v then Some (sub64 (lenN v) 1)          (* return v.size() - 1 *)
+    if pos =? lenN v then Some (sub_sz (lenN v) 1)          (* return v.size() - 1 *)
     else if 0 <? pos then
       match nthN v (pos - 1), nthN v pos with
       | Some a, Some b => if le_b a target && lt_b target b then Some (pos - 1) else Some pos
@@ -167,8 +167,8 @@ Section Bsbi.
   Definition last_le (v : list A) (target : A) : N := count_le v target - 1.
 End Bsbi.
 
-(* ---- constructor: partition of the input into blocks ---------------------------- *)
-Definition is_nil {A} (l : list A) : bool := match l with [] => true | _ => false end.
+(* ---- constructor: blocks_partition of the input into blocks ---------------------------- *)
+Definition nil_b {A} (l : list A) : bool := match l with [] => true | _ => false end.
 
 Record bbuild : Type := mk_bbuild {
   bb_samples : list str;        (* cut_samples *)
@@ -189,25 +189,25 @@ Fixpoint build_go (cut : N) (rest : list str) (acc_size qty : N) (sample_next : 
       let acc1 := acc_size + lenN s + 1 in
       let qty1 := qty + 1 in
       let cur1 := cur ++ [s] in
-      if is_nil rest' || (cut <? acc1)
+      if nil_b rest' || (cut <? acc1)
       then build_go cut rest' 0 qty1 true [] samples1 starts1 (blocks ++ [cur1])
       else build_go cut rest' acc1 qty1 false cur1 samples1 starts1 blocks
   end.
 Definition blocks_build (cut : N) (S : list str) : bbuild := build_go cut S 0 0 true [] [] [] [].
 
-(* the same partition as a plain list function (proved equal to bb_blocks) *)
+(* the same blocks_partition as a plain list function (proved equal to bb_blocks) *)
 Fixpoint part_go (cut : N) (rest : list str) (acc_size : N) (cur : list str) : list (list str) :=
   match rest with
   | [] => []
   | s :: rest' =>
       let acc1 := acc_size + lenN s + 1 in
-      if is_nil rest' || (cut <? acc1)
+      if nil_b rest' || (cut <? acc1)
       then (cur ++ [s]) :: part_go cut rest' 0 []
       else part_go cut rest' acc1 (cur ++ [s])
   end.
-Definition partition (cut : N) (S : list str) : list (list str) := part_go cut S 0 [].
+Definition blocks_partition (cut : N) (S : list str) : list (list str) := part_go cut S 0 [].
 
-Definition firsts (B : list (list str)) : list str :=
+Definition block_firsts (B : list (list str)) : list str :=
   flat_map (fun b => match b with [] => [] | s :: _ => [s] end) B.
 Fixpoint starts_from {X} (base : N) (B : list (list X)) : list N :=
   match B with [] => [] | b :: r => base :: starts_from (base + lenN b) r end.
@@ -234,7 +234,7 @@ Section Blocks.
             if 0 <? r then
               match nthN (bd_starts d) j with
               | None => None
-              | Some s => Some (w64 (r + s))
+              | Some s => Some (wrap64 (r + s))
               end
             else Some 0
         end
@@ -244,11 +244,11 @@ Section Blocks.
   Definition blocks_extract (d : bdict) (id : N) : option (option str) :=
     if bd_qty d <? id then Some None
     else
-      match bsbi N.compare (bd_starts d) (sub64 id 1) with
+      match bsbi N.compare (bd_starts d) (sub_sz id 1) with
       | None => None
       | Some j =>
           match nthN (bd_starts d) j, nthN (bd_parts d) j with
-          | Some s, Some p => Some (pext p (sub64 id s))
+          | Some s, Some p => Some (pext p (sub_sz id s))
           | _, _ => None
           end
       end.
@@ -257,11 +257,11 @@ Section Blocks.
   Record tstate : Type := mk_tstate { t_current : N; t_part : N }.
   Definition table_init : tstate := mk_tstate 1 0.
   Definition to_index (d : bdict) (partIdx : N) : option N :=
-    if partIdx <? sub64 (lenN (bd_starts d)) 1 then nthN (bd_starts d) (partIdx + 1) else Some (bd_qty d).
+    if partIdx <? sub_sz (lenN (bd_starts d)) 1 then nthN (bd_starts d) (partIdx + 1) else Some (bd_qty d).
   (* to_index() - starting_indexes[partIdx]; None = out-of-bounds read *)
   Definition part_span (d : bdict) (partIdx : N) : option N :=
     match to_index d partIdx, nthN (bd_starts d) partIdx with
-    | Some t, Some s => Some (sub64 t s)
+    | Some t, Some s => Some (sub_sz t s)
     | _, _ => None
     end.
   Definition table_has_next (d : bdict) (st : tstate) : bool :=
@@ -275,25 +275,29 @@ Section Blocks.
     match nthN (bd_parts d) (t_part st), part_span d (t_part st) with
     | Some p, Some sp =>
         let result := pext p (t_current st) in
-        let cur1 := w64 (t_current st + 1) in
-        if sp <? cur1 then Some (result, mk_tstate 1 (w64 (t_part st + 1)))
+        let cur1 := wrap64 (t_current st + 1) in
+        if sp <? cur1 then Some (result, mk_tstate 1 (wrap64 (t_part st + 1)))
         else Some (result, mk_tstate cur1 (t_part st))
     | _, _ => None
     end.
-  Definition table_iter (d : bdict) : iter tstate (option str) :=
-    mk_iter (table_has_next d) (table_next d).
+  Definition table_iter (d : bdict) : itmachine tstate (option str) :=
+    mk_itmachine (table_has_next d) (table_next d).
 End Blocks.
 
-(* the instance run by the oracle: each part is its block, answering by the specification *)
+(* the instance run by the oracle: each part is its block, answering by the specification.
+   [range_extract] is spec_extract with the range test done first (proved equal; spec_extract
+   on an id near 2^64 would make the extracted code build a unary number of that size) *)
+Definition range_extract (B : list str) (id : N) : option str :=
+  if (id =? 0) || (lenN B <? id) then None else nthN B (id - 1).
 Definition spec_bdict (cut : N) (S : list str) : @bdict (list str) :=
   let b := blocks_build cut S in
   mk_bdict (bb_qty b) (bb_samples b) (bb_starts b) (bb_blocks b).
 Definition model_blocks_locate (cut : N) (S : list str) (q : str) : option N :=
   blocks_locate spec_locate (spec_bdict cut S) q.
 Definition model_blocks_extract (cut : N) (S : list str) (id : N) : option (option str) :=
-  blocks_extract spec_extract (spec_bdict cut S) id.
+  blocks_extract range_extract (spec_bdict cut S) id.
 Definition model_blocks_table (cut : N) (S : list str) (fuel : nat) :=
-  run_iter (table_iter spec_extract (spec_bdict cut S)) fuel table_init.
+  run_iter (table_iter range_extract (spec_bdict cut S)) fuel table_init.
 (* direct probes of binary_search_before_index on arbitrary vectors *)
 Definition model_bsbi_samples (v : list str) (q : str) : option N := bsbi lex_compare v q.
 Definition model_bsbi_index (v : list N) (t : N) : option N := bsbi N.compare v t.
